@@ -197,6 +197,9 @@ def run(prog: Program, res: Result) -> None:
         ok = vf.idempotent is True
         if ok:
             good(f"{name}.correct ({vf.correct_kind}) idempotent", f"{name}.idempotent")
+        elif vf.idempotent is None:
+            res.errors.append(f"{name}.correct ({vf.correct_kind}): idempotence undecided - the child kind's correct has a shape "
+                              f"the primitive table does not cover")
         else:
             res.ob(False)
             res.add(Finding(P, "C13.R3-correct-idempotent", f"models.{name}.correct::{vf.correct_kind}", f.loc(),
